@@ -26,7 +26,7 @@ Definition chk_finish (k : c19_case) : bool :=
 Definition chk_decomposed (k : c19_case) : bool :=
   let '(gh, gsx, env, (nq, nc, regs), sub, ids, ms, (g, idx), dec, kq, out) := k in
   match append_measurement_register (mkMC nq nc regs sub) idx with
-  | Ok qc1 => res_beq (pair_beq circ_beq Nat.eqb) (decompose env (mdata qc1) (mnc qc1) ids (Some ms)) (Ok (dec, kq))
+  | Ok qc1 => res_beq (pair_beq circ_beq Nat.eqb) (decompose env (mdata qc1) (mnc qc1) ids (Some (map Some ms))) (Ok (dec, kq))
   | _ => false
   end.
 
